@@ -62,6 +62,27 @@ func (p *Program) FindFunc(key string) *ssa.Function {
 	if fn, ok := p.Funcs[key]; ok {
 		return fn
 	}
+	if i := strings.Index(key, ".table:"); i >= 0 {
+		// `func table:Var[key].Field`: the function literal stored in a dispatch table entry by the real package
+		// initialiser (anonymous functions have no stable name): found by the source position the running program reports
+		v, ok := p.Consts[key[:i]+"."+key[i+len(".table:"):]]
+		if !ok || !strings.HasPrefix(v, "func:") {
+			return nil
+		}
+		at := strings.LastIndex(v, "@")
+		if at < 0 {
+			return nil
+		}
+		pos := v[at+1:] // file:line
+		for _, fn := range p.Funcs {
+			if fn.Pos().IsValid() {
+				ps := p.Prog.Fset.Position(fn.Pos())
+				if fmt.Sprintf("%s:%d", ps.Filename, ps.Line) == pos && fn.Parent() != nil {
+					return fn
+				}
+			}
+		}
+	}
 	return nil
 }
 
